@@ -33,7 +33,8 @@ def run(tier, replay=None):
     # zone pass: valid events with calendar fields on the offset-change days of a zone with DST (existing civil times),
     # through the handler in a child process running in that zone
     zs = ["America/New_York", "Europe/London", "America/Santiago", "Australia/Lord_Howe", "Asia/Tehran", "Africa/Casablanca"]
-    pick = zs if tier == "thorough" else [zs[(vflib.seed() + 1) % len(zs)], zs[(vflib.seed() + 4) % len(zs)]]
+    gaps = ["America/Santiago", "America/Havana", "America/Asuncion", "America/Sao_Paulo", "Asia/Beirut"]     # zones with days whose midnight is skipped
+    pick = (zs + gaps) if tier == "thorough" else [zs[(vflib.seed() + 1) % len(zs)], gaps[(vflib.seed() + 2) % len(gaps)]]
     if replay is None:
         for z in pick:
             zsumm = common.harness_traces("c10", tier, shards=2, env={"TZ": z}, extra_args=["-x", "layouts=%s;zonepass=1" % layouts], timeout=1800, name="c10-zone-" + z.replace("/", "_"))
